@@ -1,13 +1,16 @@
 """Schema.add_schema (C18): after S.add_schema(T, R), S has its previous rules plus, for every rule of T, a *new* rule with the
 same condition, cast and doc objects and the path R followed by the rule's path; rules are ordered shortest path first;
-T's rule list and rule objects are not written (frame obligations of the stores executed).  Schemas of 0-2 API-built
+T's rule list and rule objects are not written (frame obligations of the stores executed); the new
+path is flagged concrete (one node, addressed by primitives only) only if both R and the rule's path are.  Schemas of 0-2 API-built
 rules on both sides, roots of one or two primitive parts with arbitrary keys."""
 from pyvc.contracts import contract, Shape, Str, Int
 from pyvc.sym import C
 from spec.prims import is_fresh
 from valida.datapath import DataPath
 from valida.schema import Schema
+from valida.datapath import ListValue, MapValue
 from contracts.ruleserial import ApiRule, ApiSchema, CONDS
+from contracts.parttospec import ApiPart
 
 
 class ApiPath(Shape):
@@ -23,8 +26,10 @@ class ApiPath(Shape):
 R1 = ApiRule([Str()], CONDS[0], None)
 R2 = ApiRule([Str(), Int()], CONDS[1], {str: int})
 R3 = ApiRule([], CONDS[2], {})
+R4 = ApiRule([Str(), ApiPart(ListValue, {})], CONDS[0], None)          # a path that matches several nodes
+R5 = ApiRule([ApiPart(MapValue, {})], CONDS[1], None)
 SS = [ApiSchema([]), ApiSchema([R1]), ApiSchema([R2, R1])]
-TS = [ApiSchema([R3]), ApiSchema([R1, R3]), ApiSchema([R2])]
+TS = [ApiSchema([R3]), ApiSchema([R1, R3]), ApiSchema([R2]), ApiSchema([R4]), ApiSchema([R5, R1])]
 ROOTS = [ApiPath([Str()]), ApiPath([Str(), Int()])]
 PRIM_ROOTS = [Str(), Int()]          # a one-part root given as the bare key / index
 
@@ -32,7 +37,8 @@ PRIM_ROOTS = [Str(), Int()]          # a one-part root given as the bare key / i
 def Added(S_rules, t_rule, root):
     """Some rule of S is the re-rooted copy of T's rule."""
     return any(x is not t_rule and x.condition is t_rule.condition and x.cast is t_rule.cast and x.doc is t_rule.doc
-               and x.path.parts == root.parts + t_rule.path.parts for x in S_rules)
+               and x.path.parts == root.parts + t_rule.path.parts
+               and (not x.path.is_concrete or (root.is_concrete and t_rule.path.is_concrete)) for x in S_rules)
 
 
 contract(
